@@ -89,6 +89,28 @@ mod vk_slice {
         if let Some(a) = a { assert!(a.idx == c0 && std::ptr::eq(a.value, &data[c0]), "[C19 C02 same-address] the clone delivers references to the original elements"); }
     }
 
+    // clone_from (by default `*self = source.clone()`): the target becomes a copy of the source -- same collection, same position --
+    // whatever it iterated before
+    // @harness name=slice_clone_from props=C19 kind=bounded bound="two slices of length <= 4 and <= 2; counter values over the full usize domain (real atomics)"
+    #[kani::proof]
+    fn slice_clone_from() {
+        let data: [u8; N] = kani::any();
+        let other: [u8; 2] = kani::any();
+        let olen: usize = kani::any();
+        kani::assume(olen <= 2);
+        let src = ConIterOfSlice::new(&data[..]);
+        let c0: usize = kani::any();
+        src.counter().store(c0);
+        let mut dst = ConIterOfSlice::new(&other[..olen]);
+        let d0: usize = kani::any();
+        dst.counter().store(d0);
+        dst.clone_from(&src);
+        kani::cover!(c0 > olen && c0 < N, "source is past the length of the target's old slice");
+        assert!(dst.counter().current() == c0, "[C19 clone-pos] clone_from leaves the target at the source's position");
+        assert!(std::ptr::eq(dst.as_slice().as_ptr(), data.as_ptr()) && dst.as_slice().len() == N, "[C19 clone-src] clone_from makes the target iterate the source's collection");
+        assert!(src.counter().current() == c0 && !std::ptr::eq(dst.counter(), src.counter()), "[C19 independent] clone_from leaves the source untouched and shares nothing with it");
+    }
+
     // cloning through a reference in generic code that knows nothing about the element type: an iterator over a slice is cloneable
     // whatever its elements are (a Clone impl that only exists for `T: Clone` silently turns `it.clone()` into a copy of the REFERENCE
     // here, i.e. an alias that shares the original's counter -- and still compiles)
@@ -106,35 +128,6 @@ mod vk_slice {
         kani::cover!(c0 < 3, "clone in the middle");
         assert!(r == if c0 < 3 { Some(c0) } else { None }, "[C19 clone-pos] the clone starts at the original's position");
         assert!(it.counter().current() == c0, "[C19 independent] pulling from a clone does not move the original, whatever the element type and however the clone was taken");
-    }
-
-    // @harness name=slice_constructors props=C19 kind=bounded bound="collections of length 3"
-    #[kani::proof]
-    #[kani::unwind(5)]
-    fn slice_constructors() {
-        let a: [u8; 3] = kani::any();
-        let copy = a;
-        {
-            let it = a.con_iter();
-            assert!(std::ptr::eq(it.as_slice().as_ptr(), a.as_ptr()) && it.as_slice().len() == 3 && it.counter().current() == 0, "[C19 ctor-array] con_iter of an array iterates the array in place from position 0");
-            let it2 = a.con_iter();
-            let _ = it.next();
-            assert!(it2.counter().current() == 0, "[C19 independent] separate iterators over one collection progress independently");
-        }
-        let v = vec![a[0], a[1], a[2]];
-        {
-            let it = v.con_iter();
-            assert!(std::ptr::eq(it.as_slice().as_ptr(), v.as_ptr()) && it.as_slice().len() == 3 && it.counter().current() == 0, "[C19 ctor-vec] con_iter of a Vec iterates the Vec in place from position 0");
-            let _ = it.next_chunk(2).map(|c| c.begin_idx);
-            it.skip_to_end();
-        }
-        assert!(v.len() == 3 && v[0] == copy[0] && v[1] == copy[1] && v[2] == copy[2], "[C19 unmodified] the collection is unmodified and usable afterwards");
-        let s: &[u8] = &a[..];
-        let it = s.con_iter();
-        assert!(std::ptr::eq(it.as_slice().as_ptr(), a.as_ptr()) && it.counter().current() == 0, "[C19 ctor-slice] con_iter of a slice iterates the slice in place from position 0");
-        let it = s.into_con_iter();
-        assert!(std::ptr::eq(it.as_slice().as_ptr(), a.as_ptr()) && it.counter().current() == 0, "[C19 ctor-slice] into_con_iter of a slice iterates the slice in place from position 0");
-        assert!(a == copy, "[C19 unmodified] the collection is unmodified and usable afterwards");
     }
 
     // the same operations seen at the level of the std atomics (every atomic operation on the counter is logged, whatever
